@@ -74,19 +74,12 @@ def handleFsb (useRat : Bool) (cut setting nS rhS kS : String) (rest : List Stri
       | none => err "format"
       | some vects =>
         let hex := isHexagonal vects hexTol
-        -- 4-index input needs a hexagonal box; return_hexagonal default follows the input form
+        -- form of the plane / default of return_hexagonal: the model's `hklForm` and `planeOf`
+        let rhOpt : Option Bool := if rhS = "1" then some true else if rhS = "0" then some false else none
         let hkl? : Except String (IV × Bool) :=
-          match idx with
-          | [h, kk, i, l] =>
-            if hex then
-              match plane4to3 h kk i l with
-              | some v => .ok (v, if rhS = "0" then false else true)
-              | none => .error "value"
-            else .error "value"
-          | [h, kk, l] =>
-            if rhS = "1" then (if hex then .ok (⟨h, kk, l⟩, true) else .error "value")
-            else .ok (⟨h, kk, l⟩, false)
-          | _ => .error "value"
+          match hklForm idx.length hex rhOpt with
+          | .error e => .error e
+          | .ok (rh, conv) => (planeOf idx conv).map fun v => (v, rh)
         match hkl?, c2p setting with
         | .error e, _ => err e
         | _, none => err "value"
